@@ -1416,7 +1416,13 @@ class Config:  # pylint: disable=too-many-instance-attributes
             # All included config files must have the same file format (you can't include XML from
             # a JSON file, for example).
             formatter = format_factory()
-            tree = field.include(self, formatter, filename, tree)
+            try:
+                tree = field.include(self, formatter, filename, tree)
+            except ValidationError:
+                raise
+            except Exception as err:
+                ref_path = field._ref_path if isinstance(field, BaseField) else None
+                raise ValidationError(self, field, err, ref_path=ref_path) from err  # type: ignore
 
         for key, sub_schema in sub_schemas:
             # anything but a map is rejected by load_tree with a proper validation error
